@@ -80,10 +80,15 @@ def handle (j : J) : Except String J := do
     let f := j.getD "forced"
     let forced := forcedOverlay (← f.getStr "apiVersion") (← f.getStr "kind") (← f.getStr "name")
       ((f.getD "namespace").str?)
-    let steps ← (← j.getArr "steps").mapM toStep
+    -- a step with "available": false is a listed overlayRef whose ValueFunction was not there at prepare time
+    let listed ← (← j.getArr "steps").mapM fun sj => do
+      if (sj.getD "available").bool?.getD true then pure (some (← toStep sj)) else pure none
     let create ← optFieldsAt j "create"
-    match materialiseE ev env template forced steps with
-    | none => pure (.obj [("fail", .bool true)])     -- some skipIf is not a boolean: PermFail, no target
+    match materialiseP ev okWritten env template forced listed with
+    | none =>
+      -- an unavailable listed overlay, a skipIf that is not a boolean, or failing inputs of an applied
+      -- function overlay: no target
+      pure (.obj [("fail", .bool true), ("unavailable", .bool (listed.any Option.isNone))])
     | some target =>
       pure (.obj [("target", ofFields target),
                   ("create", ofFields (createView ev env target forced (create.map OSpec.ofFields)))])
